@@ -15,6 +15,7 @@ type zzUDPConn struct {
 	id      int
 	owner   uint32   // session that dialled it
 	writes  []string // destinations written to
+	payloads [][]byte // what was written
 	wsess   []uint32 // (filled by the harness when needed)
 	closes  int
 	replies chan zzReply // replies from "the Internet"; closed = socket error
@@ -44,6 +45,7 @@ func (c *zzUDPConn) WriteTo(b []byte, addr string) (int, error) {
 		return 0, errors.New("use of closed socket") // a write racing a close just fails
 	}
 	c.writes = append(c.writes, addr)
+	c.payloads = append(c.payloads, append([]byte(nil), b...))
 	if c.io.writeErr {
 		return 0, errors.New("write error")
 	}
